@@ -532,7 +532,11 @@ pub fn run<P: Property>(args: &RunArgs) -> i32 {
                         cfg.cases = per_shard as u32;
                         cfg.failure_persistence = None;
                         cfg.rng_seed = RngSeed::Fixed(mix(seed, id, shard, build));
-                        cfg.max_shrink_iters = 50_000;
+                        // Shrinking only affects how small the replay file gets,
+                        // never the verdict; bound it in iterations and in time
+                        // (a failing case can be several KiB large).
+                        cfg.max_shrink_iters = 2_000;
+                        cfg.max_shrink_time = 30_000;
                         cfg.verbose = 0;
                         cfg.max_global_rejects = 1_000_000;
                         let stats = RefCell::new(Stats::default());
@@ -543,8 +547,10 @@ pub fn run<P: Property>(args: &RunArgs) -> i32 {
                         let slot = &slots[shard as usize];
                         let res = runner.run(&strat, |case| {
                             if stop.load(Ordering::Relaxed) && !failed.get() {
-                                // another shard failed or watchdog fired: wind down quickly
-                                return Err(TestCaseError::fail("__stop__"));
+                                // another shard failed or the watchdog fired: let
+                                // the remaining cases of this shard pass unjudged
+                                // (and uncounted) so that it winds down quickly
+                                return Ok(());
                             }
                             *slot.case.lock().unwrap() = Some(case.clone());
                             slot.started_ms
